@@ -19,6 +19,7 @@ import JanetModel.Lib.Boot2Proofs
 import JanetModel.Lib.TupleJoinCProofs
 import JanetModel.Lib.ConcatCProofs
 import JanetModel.Lib.BufPushCProofs
+import JanetModel.Lib.StrReplCProofs
 namespace JanetModel.Props.C17
 open JanetModel.Lib JanetModel.Gen.Lib
 
@@ -452,5 +453,20 @@ theorem boot_more {α β : Type} [BEq α] [Inhabited α] (x : α) (pred : α →
 
 example : BufPush.contents (BufPush.pushAt { data := #[1, 2, 3, 4, 5], count := 5 } 1 [.byte 9]).1 = [1, 9, 3, 4, 5] := by decide
 example : ArrC.concat [1] [.self, .self] = .ok [1, 1, 1, 1] ∧ ArrC.tupleJoin [[1], [2, 3]] = .ok [1, 2, 3] := by decide
+
+/-- `string/replace` and `string/replace-all` at cfun level with a string substitution: the int32 size / offset arithmetic
+    and the three tiling memcpys of `replace`; the growing result buffer of `replace-all` -/
+theorem mirror_replace (pat subst text : Bytes) (start : Option Int)
+    (hlen : (text.length : Int) - (pat.length : Int) + (subst.length : Int) ≤ int32Max) (ht : Len32 text) (hs : Len32 subst)
+    (h32 : ∀ st r, StrC.startNat start = some st → replaceAll pat subst text st = some r → (r.length : Int) ≤ int32Max) :
+    (StrC.replace pat subst text start = match StrC.startNat start with
+      | none => .panic
+      | some st => R.ofOption (replace pat subst text st)) ∧
+    (StrC.replaceAll pat subst text start = match StrC.startNat start with
+      | none => .panic
+      | some st => R.ofOption (replaceAll pat subst text st)) :=
+  ⟨StrC.replace_eq_spec pat subst text start hlen ht hs, StrC.replaceAll_eq_spec pat subst text start h32⟩
+
+example : StrC.replaceAll [97, 97] [120] [97, 97, 97, 97, 97] none = .ok [120, 120, 97] := by decide
 
 end JanetModel.Props.C17
